@@ -4,6 +4,7 @@ import (
 	"fmt"
 	"go/token"
 	"go/types"
+	"sort"
 	"strings"
 
 	"golang.org/x/tools/go/ssa"
@@ -20,7 +21,7 @@ func init() {
 			"(6) the redis back-end reads the same options and maps must-not-exist to SetNX (not-ok -> ErrTTLKeyExists), keep-ttl to redis.KeepTTL, remove-after-get to GetDel, update-ttl to Expire, redis.Nil to ErrTTLKeyNotFound; (7) every time.Duration handed to redis that derives from a ttl (seconds, as fixed by now()+ttl with now()=Unix()) is multiplied by time.Second. " +
 			"NOT decided: behavioural agreement of the two back-ends over whole histories, redis server semantics, clock readings exactly on a deadline.",
 		Assumptions: []string{"container/list contract", "now() returns Unix seconds (read from its definition)", "go-redis command semantics"},
-		Floors:      map[string]int{"C05.guarded-by": 8, "C05.expiry-before-use": 2, "C05.index-list-coupled": 3, "C05.bound": 1, "C05.options": 4, "C05.deadline-fn": 1, "C05.redis-mapping": 5, "C05.ttl-unit": 3, "C05.ttl-source": 3, "C05.redis-clear": 1, "C05.recency": 2},
+		Floors:      map[string]int{"C05.guarded-by": 8, "C05.expiry-before-use": 2, "C05.index-list-coupled": 3, "C05.bound": 1, "C05.options": 4, "C05.deadline-fn": 1, "C05.redis-mapping": 5, "C05.ttl-unit": 3, "C05.ttl-source": 3, "C05.redis-clear": 1, "C05.recency": 2, "C05.option-setters": 5},
 		Run:         runC05,
 	})
 }
@@ -92,6 +93,147 @@ func runC05(c *Ctx) {
 	}
 	x.checkDeadlineFn()
 	x.checkRedis()
+	x.checkOptionSetters()
+}
+
+// checkOptionSetters: each public option constructor returns a closure that sets exactly the option field(s) it is
+// named for, from its own argument — the rules above reason about the option *fields*; this ties the public option
+// *functions* to them (WithKeepTTL that sets mustNotExist would make every rule above hold on the wrong request).
+func (x *ttlCtx) checkOptionSetters() {
+	c := x.c
+	const rel = "cache"
+	type want struct {
+		field string
+		val   string // "true" or "$arg"
+		cond  bool   // only when the argument is non-zero (WithUpdateTTL)
+	}
+	table := map[string][]want{
+		"WithTTL":            {{"ttl", "$arg", false}},
+		"WithMustNotExist":   {{"mustNotExist", "true", false}},
+		"WithKeepTTL":        {{"keepTTL", "true", false}},
+		"WithRemoveAfterGet": {{"removeAfterGet", "true", false}},
+		"WithUpdateTTL":      {{"updateTTL", "true", false}, {"ttl", "$arg", true}},
+	}
+	var names []string
+	for n := range table {
+		names = append(names, n)
+	}
+	sort.Strings(names)
+	for _, n := range names {
+		fn := c.mustFn(rel, n)
+		if fn == nil {
+			continue
+		}
+		cons := "cache." + n
+		if len(fn.AnonFuncs) != 1 {
+			c.violated("C05.option-setters", cons, fn.Pos(), "the option constructor does not return a single closure", "")
+			continue
+		}
+		anon := fn.AnonFuncs[0]
+		arg := ""
+		if len(fn.Params) == 1 {
+			arg = "$" + fn.Params[0].Name()
+			// a captured parameter is reached through its cell inside the closure
+			if len(anon.FreeVars) == 1 {
+				if _, isPtr := anon.FreeVars[0].Type().(*types.Pointer); isPtr {
+					arg = "*$" + anon.FreeVars[0].Name()
+				}
+			}
+		}
+		traces, _ := c.Trace(anon, TraceConfig{})
+		ok, np := true, 0
+		for _, t := range traces {
+			if t.End != EndReturn {
+				continue
+			}
+			np++
+			got := map[string]string{}
+			for _, e := range t.Events {
+				if e.Kind == EvStore && e.Addr.Kind == KFieldAddr && e.Addr.Args[0].Kind == KParam {
+					v := e.Val.Key()
+					if b, isB := e.Val.boolConst(); isB {
+						v = fmt.Sprint(b)
+					}
+					got[e.Addr.Field.Name()] = v
+				}
+			}
+			facts := t.factsBefore(len(t.Events))
+			argZero := arg != "" && hasFact(facts, func(f Fact) bool {
+				z, isz := f.Y.intConst()
+				return f.X.Key() == arg && isz && z == 0 && f.Op == token.EQL
+			})
+			exp := map[string]string{}
+			for _, w := range table[n] {
+				if w.cond && argZero {
+					continue
+				}
+				v := w.val
+				if v == "$arg" {
+					v = arg
+				}
+				exp[w.field] = v
+			}
+			if fmt.Sprint(got) != fmt.Sprint(exp) && ok {
+				ok = false
+				c.violated("C05.option-setters", cons, anon.Pos(), fmt.Sprintf("the option sets %v, expected %v: callers asking for %s get a different request than the one the cache rules are checked for", got, exp, n), c.witness(t, len(t.Events)-1)...)
+			}
+		}
+		if ok {
+			c.check(np > 0, "C05.option-setters", cons, fn.Pos(), "sets exactly its own field(s)", "the option closure has no returning path")
+		}
+	}
+	// the redis back-end addresses every key through its prefix, in all four keyed operations
+	for _, m := range []string{"Set", "Get", "Remove"} {
+		fn := c.mustFn(rel, "(*ttlRdsCache)."+m)
+		if fn == nil {
+			continue
+		}
+		cons := "(*cache.ttlRdsCache)." + m + " key"
+		traces, _ := c.Trace(fn, x.cfg)
+		ok, n := true, 0
+		keyP := "$" + fn.Params[2].Name()
+		for _, t := range traces {
+			for i, e := range t.Events {
+				if e.Kind != EvCall || e.Method == nil || e.Method.Pkg() == nil || !strings.HasSuffix(e.Method.Pkg().Path(), "go-redis/v9") {
+					continue
+				}
+				switch e.Method.Name() {
+				case "Set", "SetNX", "Get", "GetDel", "Expire", "Del":
+				default:
+					continue
+				}
+				n++
+				// some argument is prefix + key
+				good := false
+				for _, a := range e.Args {
+					a.walk(func(y *Sym) {
+						if y.Kind == KBin && y.Op == token.ADD && y.Args[1].Key() == keyP && strings.Contains(y.Args[0].Key(), ".prefix") {
+							good = true
+						}
+					})
+					// Del takes a slice: look at the stored element
+					if r := a.root(); r != nil && r.Kind == KAlloc {
+						for _, st := range t.Events[:i] {
+							if st.Kind == EvStore && st.Addr.root().Key() == r.Key() {
+								st.Val.walk(func(y *Sym) {
+									if y.Kind == KBin && y.Op == token.ADD && y.Args[1].Key() == keyP && strings.Contains(y.Args[0].Key(), ".prefix") {
+										good = true
+									}
+								})
+							}
+						}
+					}
+				}
+				if !good && ok {
+					ok = false
+					c.violated("C05.redis-mapping", cons, e.Pos, e.Method.Name()+" is issued for a key that is not prefix+key: this operation addresses another redis key than the other operations of the same cache (a removed key stays readable / a set key is not found)", c.witness(t, i)...)
+				}
+			}
+		}
+		if ok {
+			c.check(n > 0, "C05.redis-mapping", cons, fn.Pos(), "every command addresses prefix+key", "no redis command found")
+		}
+	}
 }
 
 // checkRecency: a successful Get or Set that finds the key and keeps its entry moves that entry to the front of the
